@@ -122,8 +122,12 @@ func (c *ctx) micCase(maxFrm int) {
 	perts := []pert{
 		{"fkey", func(q *micParams, ph *lorawan.PHYPayload) { q.fkey = flipKey(q.fkey, c.rnd.Intn(128)) }},
 		{"skey", func(q *micParams, ph *lorawan.PHYPayload) { q.skey = flipKey(q.skey, c.rnd.Intn(128)) }},
-		{"fcnt-low", func(q *micParams, ph *lorawan.PHYPayload) { ph.MACPayload.(*lorawan.MACPayload).FHDR.FCnt ^= 1 << uint(c.rnd.Intn(16)) }},
-		{"fcnt-high", func(q *micParams, ph *lorawan.PHYPayload) { ph.MACPayload.(*lorawan.MACPayload).FHDR.FCnt ^= 1 << uint(16+c.rnd.Intn(16)) }},
+		{"fcnt-low", func(q *micParams, ph *lorawan.PHYPayload) {
+			ph.MACPayload.(*lorawan.MACPayload).FHDR.FCnt ^= 1 << uint(c.rnd.Intn(16))
+		}},
+		{"fcnt-high", func(q *micParams, ph *lorawan.PHYPayload) {
+			ph.MACPayload.(*lorawan.MACPayload).FHDR.FCnt ^= 1 << uint(16+c.rnd.Intn(16))
+		}},
 		{"conf-low", func(q *micParams, ph *lorawan.PHYPayload) { q.conf ^= 1 << uint(c.rnd.Intn(16)) }},
 		{"conf-high", func(q *micParams, ph *lorawan.PHYPayload) { q.conf ^= 1 << uint(16+c.rnd.Intn(16)) }},
 		{"txdr", func(q *micParams, ph *lorawan.PHYPayload) { q.txdr ^= 1 << uint(c.rnd.Intn(8)) }},
